@@ -13,11 +13,33 @@ import (
 )
 
 // candidate types for the registries: 0..15 the static universe, then generated array and struct types
+// types that look similar to relation components but are not (the marker must be embedded as the first field)
+type notRelNamed struct {
+	M ecs.RelationMarker
+	V int32
+}
+type notRelSecond struct {
+	V int32
+	ecs.RelationMarker
+}
+type notRelOtherType struct {
+	RelationMarker int64
+}
+type relWithPayload struct {
+	ecs.RelationMarker
+	A, B int64
+}
+
+var specialTypes = []reflect.Type{reflect.TypeFor[notRelNamed](), reflect.TypeFor[notRelSecond](), reflect.TypeFor[notRelOtherType](), reflect.TypeFor[relWithPayload]()}
+
 func regType(i int) reflect.Type {
 	if i < comps.N {
 		return comps.All[i].Type
 	}
 	i -= comps.N
+	if i < len(specialTypes) {
+		return specialTypes[i]
+	}
 	if i%3 == 2 {
 		return reflect.StructOf([]reflect.StructField{{Name: "A", Type: reflect.ArrayOf(i/3+1, reflect.TypeFor[uint16]())}, {Name: "B", Type: reflect.TypeFor[uint8]()}})
 	}
@@ -131,7 +153,7 @@ func testRegistry(rt *rapid.T, st *RunStats) {
 			if !ok || info.Type != tp || info.ID.Index() != id {
 				failf("registry|lookup|info", "ComponentInfo(%d) = %+v, %v; want type %v", id, info, ok, tp)
 			}
-			wantRel := ti < comps.N && comps.All[ti].Relation
+			wantRel := ti < comps.N && comps.All[ti].Relation || tp == reflect.TypeFor[relWithPayload]()
 			if info.IsRelation != wantRel {
 				failf("registry|lookup|relation-flag", "ComponentInfo(%d).IsRelation=%v for %v", id, info.IsRelation, tp)
 			}
@@ -186,7 +208,7 @@ func testRegistry(rt *rapid.T, st *RunStats) {
 			for id := 0; id < len(m.order); id++ {
 				if set[uint8(id)] {
 					ids = append(ids, mkID(uint8(id)))
-					if ti := m.order[id]; ti < comps.N && comps.All[ti].Relation {
+					if ti := m.order[id]; ti < comps.N && comps.All[ti].Relation || regType(ti) == reflect.TypeFor[relWithPayload]() {
 						rels = append(rels, ecs.RelID(mkID(uint8(id)), ecs.Entity{}))
 					}
 				}
